@@ -3,6 +3,7 @@ CONSTANTS
   KMax = 1
   MaxSteps = 3
   WithObs = FALSE
+  PurgeByKey = FALSE
   PurgeLast = FALSE
   Kinds = {"pos", "fail", "cut", "ask"}
 INIT Init
